@@ -101,18 +101,32 @@ func c12Placements(e ast.Node, t gen.Ty, r *core.Rng) []placement {
 	switch t.K {
 	case gen.TInt:
 		nested = []func(ast.Node) ast.Node{
-			func(x ast.Node) ast.Node { return ast.Binary{Op: "+", L: ast.Binary{Op: "+", L: ast.IntLit{V: 0}, R: ast.IntLit{V: 0}}, R: x} },
-			func(x ast.Node) ast.Node { return ast.Binary{Op: "*", L: ast.Binary{Op: "*", L: ast.IntLit{V: 1}, R: ast.IntLit{V: 1}}, R: x} },
-			func(x ast.Node) ast.Node { return ast.Binary{Op: "|", L: ast.Binary{Op: "-", L: ast.IntLit{V: 3}, R: ast.IntLit{V: 3}}, R: x} },
+			func(x ast.Node) ast.Node {
+				return ast.Binary{Op: "+", L: ast.Binary{Op: "+", L: ast.IntLit{V: 0}, R: ast.IntLit{V: 0}}, R: x}
+			},
+			func(x ast.Node) ast.Node {
+				return ast.Binary{Op: "*", L: ast.Binary{Op: "*", L: ast.IntLit{V: 1}, R: ast.IntLit{V: 1}}, R: x}
+			},
+			func(x ast.Node) ast.Node {
+				return ast.Binary{Op: "|", L: ast.Binary{Op: "-", L: ast.IntLit{V: 3}, R: ast.IntLit{V: 3}}, R: x}
+			},
 		}
 	case gen.TFloat:
-		nested = []func(ast.Node) ast.Node{func(x ast.Node) ast.Node { return ast.Binary{Op: "*", L: ast.Binary{Op: "+", L: ast.IntLit{V: 1}, R: ast.IntLit{V: 0}}, R: x} }}
+		nested = []func(ast.Node) ast.Node{func(x ast.Node) ast.Node {
+			return ast.Binary{Op: "*", L: ast.Binary{Op: "+", L: ast.IntLit{V: 1}, R: ast.IntLit{V: 0}}, R: x}
+		}}
 	case gen.TBool:
-		nested = []func(ast.Node) ast.Node{func(x ast.Node) ast.Node { return ast.Binary{Op: "&", L: ast.Binary{Op: "|", L: ast.BoolLit{V: true}, R: ast.BoolLit{V: false}}, R: x} }}
+		nested = []func(ast.Node) ast.Node{func(x ast.Node) ast.Node {
+			return ast.Binary{Op: "&", L: ast.Binary{Op: "|", L: ast.BoolLit{V: true}, R: ast.BoolLit{V: false}}, R: x}
+		}}
 	case gen.TStr:
-		nested = []func(ast.Node) ast.Node{func(x ast.Node) ast.Node { return ast.Binary{Op: "+", L: ast.Binary{Op: "+", L: ast.StrLit{V: ""}, R: ast.StrLit{V: ""}}, R: x} }}
+		nested = []func(ast.Node) ast.Node{func(x ast.Node) ast.Node {
+			return ast.Binary{Op: "+", L: ast.Binary{Op: "+", L: ast.StrLit{V: ""}, R: ast.StrLit{V: ""}}, R: x}
+		}}
 	case gen.TArr:
-		nested = []func(ast.Node) ast.Node{func(x ast.Node) ast.Node { return ast.Binary{Op: "+", L: ast.Binary{Op: "+", L: ast.ArrayLit{}, R: ast.ArrayLit{}}, R: x} }}
+		nested = []func(ast.Node) ast.Node{func(x ast.Node) ast.Node {
+			return ast.Binary{Op: "+", L: ast.Binary{Op: "+", L: ast.ArrayLit{}, R: ast.ArrayLit{}}, R: x}
+		}}
 	}
 	for i, w := range nested {
 		add(fmt.Sprintf("right-of-nested-left-%d", i), true, true, w(e))
@@ -456,8 +470,8 @@ func c12Cond(_ *core.Ctx, idx int) core.Result {
 
 func init() {
 	register(&core.Property{
-		ID: "C12",
-		Rule: "(1) typed expressions (all operators, calls, closures, writes through called functions, planted faults) embedded in ~35 placements: used/discarded, function tail/return/non-tail/mid-block, assignment, argument, array element (first and after constants), if arms incl. negated condition, while/for bodies at top level and in functions, yielded, top-level return, operand depth 1..3 via typed identity wrappers on either side, each compared with the reference answer for the plain expression; (2) rewrites x=x+1 / x=1+x / t=x;x=t+1, e op e / t=e;t op t, if !c A else B / if c B else A, while with negated condition, at top level and inside functions, REPL and script mode; (3) enumerated non-boolean conditions (13 values x 5 bodies x 8 statement forms x 3 nestings) must be type errors everywhere without running the body. non-trivial = expression of >= 3 nodes (1), every case (2,3); distinct by prelude+expression / variant text.",
+		ID:          "C12",
+		Rule:        "(1) typed expressions (all operators, calls, closures, writes through called functions, planted faults) embedded in ~35 placements: used/discarded, function tail/return/non-tail/mid-block, assignment, argument, array element (first and after constants), if arms incl. negated condition, while/for bodies at top level and in functions, yielded, top-level return, operand depth 1..3 via typed identity wrappers on either side, each compared with the reference answer for the plain expression; (2) rewrites x=x+1 / x=1+x / t=x;x=t+1, e op e / t=e;t op t, if !c A else B / if c B else A, while with negated condition, at top level and inside functions, REPL and script mode; (3) enumerated non-boolean conditions (13 values x 5 bodies x 8 statement forms x 3 nestings) must be type errors everywhere without running the body. non-trivial = expression of >= 3 nodes (1), every case (2,3); distinct by prelude+expression / variant text.",
 		Assumptions: []string{"expressions whose plain evaluation the reference finds ambiguous or nil-valued are dropped"},
 		Families: []core.Family{
 			{Name: "expr", Count: countFn(2500, 400000), Run: c12Expr},
